@@ -18,6 +18,9 @@ const (
 
 func calculateLines(lines []*Line, cur currency.Code, rates []*currency.ExchangeRate, rr cbc.Key) error {
 	for i, l := range lines {
+		if l == nil {
+			continue
+		}
 		l.Index = i + 1
 		if err := calculateLine(l, cur, rates, rr); err != nil {
 			return validation.Errors{strconv.Itoa(i): err}
@@ -29,7 +32,7 @@ func calculateLines(lines []*Line, cur currency.Code, rates []*currency.Exchange
 func calculateLineSum(lines []*Line, cur currency.Code) num.Amount {
 	sum := cur.Def().Zero()
 	for _, l := range lines {
-		if l.Total != nil {
+		if l != nil && l.Total != nil {
 			sum = sum.MatchPrecision(*l.Total)
 			sum = sum.Add(*l.Total)
 		}
@@ -39,7 +42,7 @@ func calculateLineSum(lines []*Line, cur currency.Code) num.Amount {
 
 // calculate figures out the totals according to quantity and discounts.
 func calculateLine(l *Line, cur currency.Code, rates []*currency.ExchangeRate, rr cbc.Key) error {
-	if l.Item == nil { // implies invalid, so just skip
+	if l == nil || l.Item == nil { // implies invalid, so just skip
 		return nil
 	}
 	zero := cur.Def().Zero()
@@ -48,6 +51,9 @@ func calculateLine(l *Line, cur currency.Code, rates []*currency.ExchangeRate, r
 		// Calculate the substituted line items, which have no consequence on the
 		// final calculations, but still need some kind of normalization.
 		for i, sl := range l.Substituted {
+			if sl == nil {
+				continue
+			}
 			sl.Index = i + 1
 			if err := calculateSubLine(sl, cur, rates, rr); err != nil {
 				return validation.Errors{
@@ -63,6 +69,9 @@ func calculateLine(l *Line, cur currency.Code, rates []*currency.ExchangeRate, r
 		np := zero
 		hasPrice := false
 		for i, sl := range l.Breakdown {
+			if sl == nil {
+				continue
+			}
 			sl.Index = i + 1
 			if err := calculateSubLine(sl, cur, rates, rr); err != nil {
 				return validation.Errors{
@@ -121,7 +130,7 @@ func calculateLine(l *Line, cur currency.Code, rates []*currency.ExchangeRate, r
 // We don't apply rounding rules here, as the objective is to have
 // maximum precision to determine the final line item price.
 func calculateSubLine(sl *SubLine, cur currency.Code, rates []*currency.ExchangeRate, rr cbc.Key) error {
-	if sl.Item == nil {
+	if sl == nil || sl.Item == nil {
 		return nil
 	}
 
@@ -161,12 +170,15 @@ func calculateSubLine(sl *SubLine, cur currency.Code, rates []*currency.Exchange
 func calculateLineDiscounts(discounts []*LineDiscount, sum, total num.Amount, cur currency.Code, rr cbc.Key) num.Amount {
 	cd := cur.Def()
 	for _, d := range discounts {
+		if d == nil {
+			continue
+		}
 		if d.Percent != nil && !d.Percent.IsZero() {
 			base := sum
 			if d.Base != nil {
-				b := d.Base.RescaleUp(cd.Subunits)
+				b := cd.RescaleUp(*d.Base)
 				d.Base = &b
-				base = d.Base.RescaleUp(cd.Subunits + linePrecisionExtra)
+				base = d.Base.RescaleUp(cd.Zero().Exp() + linePrecisionExtra)
 				base = tax.ApplyRoundingRule(rr, cur, base)
 			}
 			d.Amount = d.Percent.Of(base) // always override
@@ -180,12 +192,15 @@ func calculateLineDiscounts(discounts []*LineDiscount, sum, total num.Amount, cu
 func calculateLineCharges(charges []*LineCharge, quantity, sum, total num.Amount, cur currency.Code, rr cbc.Key) num.Amount {
 	cd := cur.Def()
 	for _, c := range charges {
+		if c == nil {
+			continue
+		}
 		if c.Percent != nil && !c.Percent.IsZero() {
 			base := sum
 			if c.Base != nil {
-				b := c.Base.RescaleUp(cd.Subunits)
+				b := cd.RescaleUp(*c.Base)
 				c.Base = &b
-				base = c.Base.RescaleUp(cd.Subunits + linePrecisionExtra)
+				base = c.Base.RescaleUp(cd.Zero().Exp() + linePrecisionExtra)
 				base = tax.ApplyRoundingRule(rr, cur, base)
 			}
 			c.Amount = c.Percent.Of(base) // always override
@@ -226,7 +241,7 @@ func calculateLineItemPrice(item *org.Item, cur currency.Code, rates []*currency
 
 	// First check the alt prices
 	for _, ap := range item.AltPrices {
-		if ap.Currency == cur {
+		if ap != nil && ap.Currency == cur {
 			item.Currency = ap.Currency
 			price = ap.Value.MatchPrecision(ap.Currency.Def().Zero())
 			item.Price = &price
@@ -251,7 +266,7 @@ func calculateLineItemPrice(item *org.Item, cur currency.Code, rates []*currency
 func determineSubLinePrecision(sls []*SubLine) uint32 {
 	e := uint32(0)
 	for _, sl := range sls {
-		if sl.Item == nil || sl.Item.Price == nil {
+		if sl == nil || sl.Item == nil || sl.Item.Price == nil {
 			continue
 		}
 		x := sl.Item.Price.Exp()
@@ -274,7 +289,7 @@ func roundLines(lines []*Line) {
 // This method is only useful for precision rounding, as currency
 // round will automatically apply the correct rounding rules.
 func (l *Line) round() {
-	if l.Item == nil || l.Item.Price == nil {
+	if l == nil || l.Item == nil || l.Item.Price == nil {
 		return
 	}
 	e := l.Item.Price.Exp()
@@ -304,16 +319,25 @@ func (l *Line) round() {
 }
 
 func (d *LineDiscount) round(e uint32) {
+	if d == nil {
+		return
+	}
 	d.Amount = d.Amount.RescaleDown(e)
 }
 
 func (c *LineCharge) round(e uint32) {
+	if c == nil {
+		return
+	}
 	c.Amount = c.Amount.RescaleDown(e)
 }
 
 // round performs a rounding operation on the sub-line's totals
 // so that everything is aligned with the currency's precision.
 func (sl *SubLine) round(e uint32) {
+	if sl == nil {
+		return
+	}
 	if sl.Sum != nil {
 		// Ensure sum precision is aligned with price
 		sum := sl.Sum.RescaleDown(e)
